@@ -263,7 +263,7 @@ func runMatrix(tw *traceWriter, secring, hl, authS, cellsFile string) {
 					dsub += "-" + c.Sub
 				}
 			}
-			tw.emit(map[string]any{"ev": "req", "pattern": p, "routed": routed, "htype": ht, "sub": dsub, "method": c.Method,
+			tw.emit(map[string]any{"ev": "req", "pattern": p, "routed": routed, "htype": ht, "sub": dsub, "csub": c.Sub, "method": c.Method,
 				"creds": c.Creds, "status": rec.Code, "cls": cls})
 		}
 	}
